@@ -17,6 +17,7 @@ CompletedOk == "Completed" \notin bad
 NodeAddressOk == "NodeAddress" \notin bad
 TcAddressOk == "TcAddress" \notin bad
 ReadMatchesStoreOk == "ReadMatchesStore" \notin bad
+OverlapReadsOk == "OverlapReads" \notin bad
 Progress == TLCSet(1, [TLCGet(1) EXCEPT ![tid] = IF @ < l THEN l ELSE @])
 Post == /\ PrintT(<<"BVPROGRESS", TLCGet(1)>>)
         /\ \A i \in 1 .. Len(Traces) : TLCGet(1)[i] = Len(Traces[i]) + 1
